@@ -1475,3 +1475,89 @@ Proof.
     unfold La. destruct HL as [->|(a & -> & Ha & Hs)]; [now apply OrdL_nil|]. simpl in Hs. simpl flat_map. rewrite app_nil_r.
     inversion G2; subst. now apply (PA_pieces v a).
 Qed.
+
+Lemma ends_decomp {X} (x y : X) pre' m suf' : (x :: pre') ++ m ++ (suf' ++ [y]) = x :: (pre' ++ m ++ suf') ++ [y].
+Proof. simpl. now rewrite <- !app_assoc. Qed.
+
+Lemma item_E_pure v x : GoodItem v x -> ist x = SEmpty -> proper (ic x) = true /\ PureE v (ic x).
+Proof. intros (Hp & HS & _) E. rewrite E in HS. auto. Qed.
+
+(* the pieces of an aligned partial child begin with a block without v; those of its reversal end with one *)
+Lemma PA_first_E v a : GoodItem v a -> ist a = SPartA ->
+  exists x r, simplify v true (ic a) = x :: r /\ proper x = true /\ PureE v x /\ Forall (fun c => proper c = true) r.
+Proof.
+  intros (Hp & HS & _) Ha. rewrite Ha in HS. destruct HS as [HA HP].
+  pose proof (simplify_spec false v (ic a) HA Hp) as S0. simpl negb in S0.
+  destruct (SimpOK_both false v _ _ Hp HP S0) as (e0 & f0 & Hne0 & _ & HE0 & _ & Hpp0 & EL0).
+  destruct e0 as [|x e0']; [congruence|]. exists x, (e0' ++ f0). rewrite EL0. simpl.
+  inversion Hpp0; subst. inversion HE0; subst. auto.
+Qed.
+
+Lemma PA_last_E v b : GoodItem v b -> ist b = SPartA ->
+  exists r y, simplify v false (reverse (ic b)) = r ++ [y] /\ proper y = true /\ PureE v y /\ Forall (fun c => proper c = true) r.
+Proof.
+  intros (Hp & HS & _) Hb. rewrite Hb in HS. destruct HS as [HA HP].
+  assert (Hpr : proper (reverse (ic b)) = true) by now rewrite proper_reverse.
+  pose proof (simplify_spec true v _ (Al_reverse v _ HA) Hpr) as S1. simpl negb in S1.
+  destruct (SimpOK_both true v _ _ Hpr (Partial_reverse v _ HP) S1) as (e1 & f1 & Hne1 & _ & HE1 & _ & Hpp1 & EL1).
+  destruct (exists_last Hne1) as (e1' & y & ->). exists (f1 ++ e1'), y. rewrite EL1, <- app_assoc.
+  apply Forall_app in Hpp1. destruct Hpp1 as [Hpe Hpf]. apply Forall_app in Hpe. destruct Hpe as [Hpe Hpy]. inversion Hpy; subst.
+  apply Forall_app in HE1. destruct HE1 as [_ HEy]. inversion HEy; subst.
+  repeat split; auto. apply Forall_app. auto.
+Qed.
+
+Lemma simplify_proper_PA v a : GoodItem v a -> ist a = SPartA ->
+  Forall (fun c => proper c = true) (simplify v true (ic a)) /\
+  Forall (fun c => proper c = true) (simplify v false (reverse (ic a))).
+Proof.
+  intros (Hp & HS & _) Ha. rewrite Ha in HS. destruct HS as [HA HP]. split.
+  - apply (simplify_spec false v (ic a) HA Hp).
+  - assert (Hpr : proper (reverse (ic a)) = true) by now rewrite proper_reverse.
+    apply (simplify_spec true v _ (Al_reverse v _ HA) Hpr).
+Qed.
+
+(* the result of the scan is UNALIGNED-like when it begins and ends with children without v *)
+Lemma stored_U2 v d T1 E1 Lp A Rp E3 : Forall (GoodItem v) T1 -> Stored d v T1 E1 Lp A Rp E3 ->
+  (E1 <> [] \/ Lp <> []) -> (E3 <> [] \/ Rp <> []) ->
+  U2 v (Node KQ (map ic E1 ++ match Lp with [a] => simplify v true (ic a) | _ => [] end ++ map ic A ++
+                 match Rp with [b] => simplify v false (reverse (ic b)) | _ => [] end ++ map ic E3)).
+Proof.
+  intros HG (-> & HE1 & HE3 & HA & HL & HR) Hfirst Hlast.
+  assert (HGs : Forall (GoodItem v) E1 /\ Forall (GoodItem v) Lp /\ Forall (GoodItem v) A /\ Forall (GoodItem v) Rp /\ Forall (GoodItem v) E3).
+  { apply Forall_app in HG. destruct HG as [G1 G]. apply Forall_app in G. destruct G as [G2 G].
+    apply Forall_app in G. destruct G as [G3 G]. apply Forall_app in G. destruct G as [G4 G5]. auto. }
+  destruct HGs as (G1 & G2 & G3 & G4 & G5).
+  assert (Hpitems : forall l, Forall (GoodItem v) l -> Forall (fun c => proper c = true) (map ic l)).
+  { intros l Hl. apply Forall_map. eapply Forall_impl; [|exact Hl]. intros x Hx. apply Hx. }
+  set (La := match Lp with [a] => simplify v true (ic a) | _ => [] end).
+  set (Lb := match Rp with [b] => simplify v false (reverse (ic b)) | _ => [] end).
+  assert (HpLa : Forall (fun c => proper c = true) La).
+  { unfold La. destruct HL as [->|(a & -> & [Ha _])]; [constructor|]. inversion G2; subst. now apply (simplify_proper_PA v a). }
+  assert (HpLb : Forall (fun c => proper c = true) Lb).
+  { unfold Lb. destruct HR as [->|(b & -> & [Hb _])]; [constructor|]. inversion G4; subst. now apply (simplify_proper_PA v b). }
+  (* the front *)
+  assert (Hpre : exists x pre', map ic E1 ++ La = x :: pre' /\ proper x = true /\ PureE v x /\ Forall (fun c => proper c = true) pre').
+  { destruct E1 as [|e E1'].
+    - destruct Hfirst as [H|H]; [congruence|]. destruct HL as [->|(a & -> & [Ha _])]; [congruence|].
+      inversion G2; subst. destruct (PA_first_E v a) as (x & r & E & Hx1 & Hx2 & Hr); auto.
+      exists x, r. unfold La. simpl. auto.
+    - inversion G1; subst. inversion HE1; subst. destruct (item_E_pure v e) as [Hx1 Hx2]; auto.
+      exists (ic e), (map ic E1' ++ La). simpl. repeat split; auto. apply Forall_app. split; auto. }
+  assert (Hsuf : exists suf' y, Lb ++ map ic E3 = suf' ++ [y] /\ proper y = true /\ PureE v y /\ Forall (fun c => proper c = true) suf').
+  { destruct (E3) as [|e0 E3'] eqn:EE3.
+    - destruct Hlast as [H|H]; [congruence|]. destruct HR as [->|(b & -> & [Hb _])]; [congruence|].
+      inversion G4; subst. destruct (PA_last_E v b) as (r & y & E & Hy1 & Hy2 & Hr); auto.
+      exists r, y. unfold Lb. simpl. rewrite app_nil_r. auto.
+    - assert (Hne : E3 <> []) by (rewrite EE3; discriminate). rewrite <- EE3 in *.
+      destruct (exists_last Hne) as (E3'' & e & Eq). rewrite Eq in *.
+      apply Forall_app in G5. destruct G5 as [G5a G5b]. inversion G5b; subst.
+      apply Forall_app in HE3. destruct HE3 as [HE3a HE3b]. inversion HE3b; subst.
+      destruct (item_E_pure v e) as [Hy1 Hy2]; auto.
+      exists (Lb ++ map ic E3''), (ic e). rewrite map_app. simpl. rewrite app_assoc. repeat split; auto.
+      apply Forall_app. split; auto. }
+  destruct Hpre as (x & pre' & Epre & Hx1 & Hx2 & Hpre'). destruct Hsuf as (suf' & y & Esuf & Hy1 & Hy2 & Hsuf').
+  replace (map ic E1 ++ La ++ map ic A ++ Lb ++ map ic E3) with ((map ic E1 ++ La) ++ map ic A ++ (Lb ++ map ic E3))
+    by (rewrite <- !app_assoc; reflexivity).
+  rewrite Epre, Esuf, ends_decomp. apply U2_Q_ends; auto.
+  apply Forall_app. split; [exact Hpre'|]. apply Forall_app. split; [now apply Hpitems|exact Hsuf'].
+Qed.
